@@ -598,3 +598,40 @@ def released_as_unspent(f, save_block, save_term):
     par = cfg.reach(f, cut_nodes=frozenset(blocks))
     return save_block not in par
 
+
+
+def refreshed_before(f, sinks, refresh_calls, loop_iter_pat=None):
+    """True iff every entry->sink path of f passed the Ok edge of one of `refresh_calls` ([(bb, term)]).
+    Also accepts the loop form: the refresh sits in a `for` loop (over an iterator matching loop_iter_pat, if given)
+    that every path to the sinks goes through, every iteration passes the refresh's Ok edge and its failure
+    does not reach the sinks (a wallet has at least one account)."""
+    edges = set()
+    for b, _t in refresh_calls:
+        edges |= cfg.call_guard(f, b).ok
+    if not sinks or not edges:
+        return False
+    if cfg.must_pass(f, edges, sinks)[0]:
+        return True
+    for h, ht in f.calls():
+        if not (ht.get("f") or "").endswith("Iterator::next"):
+            continue
+        if loop_iter_pat is not None and not vf.has_call(vf.origins(f, ht["a"][0]) | vf.producers(f, ht["a"][0]), loop_iter_pat):
+            continue
+        if any(s_ in cfg.reach(f, cut_nodes=frozenset({h})) for s_ in sinks):
+            continue  # a path to the sinks that never reaches the loop
+        body = cfg.reach(f, starts=tuple(f.succ(h)), cut_nodes=frozenset({h}))
+        inloop = [(b, t) for b, t in refresh_calls if b in body and h in cfg.reach(f, starts=[b])]
+        if not inloop:
+            continue
+        ok = set()
+        for b, _t in inloop:
+            ok |= cfg.call_guard(f, b).ok
+        # an iteration that comes back to the loop head without the refresh's Ok edge? (the None side leaves the
+        # loop and never comes back to the head, so any path back to the head is an iteration)
+        skipped = h in cfg.reach(f, starts=tuple(f.succ(h)), cut_edges=ok)
+        # a failed refresh that still reaches the sinks?
+        leak = any(s_ in cfg.reach(f, starts=[b], cut_edges=ok, cut_nodes=frozenset({h})) for b, _t in inloop for s_ in sinks)
+        if not skipped and not leak:
+            return True
+    return False
+
